@@ -313,6 +313,45 @@ Proof.
   - split; [eapply ti_vsock_new; exact H0|]. split; [eapply sp_vsock_new; [exact Hisn|exact H0]|eapply optc_vsock_new; exact H0].
 Qed.
 
+(* ================================================================== the monitored preconditions, the
+   part that is an invariant: c05_monitor_core_ok *)
+Lemma fp_core_of (s : vsock) : ti s -> C05_Segs.sp s -> c05_fp_core (fp_of_vsock cci s) = true.
+Proof.
+  intros (_ & Hr & _) (Hm & (Hp & _)). unfold c05_fp_core. cbn [fp_of_vsock f_segs f_rto_retx f_mss].
+  apply andb_true_iff. split; [apply andb_true_iff; split|].
+  - apply forallb_forall. intros fg Hfg. apply in_map_iff in Hfg. destruct Hfg as (g & <- & Hg).
+    unfold segs_pos in Hp. rewrite Forall_forall in Hp.
+    specialize (Hp g Hg). cbn [fseg_of fg_size]. apply Z.leb_le. exact Hp.
+  - apply Z.leb_le. exact Hr.
+  - apply Z.leb_le. exact Hm.
+Qed.
+
+Theorem c05_monitor_core_ok_step : forall cfg (s : vsock) o,
+  ti s -> C05_Segs.sp s -> c05_monitor_core_ok cfg (fstep_of cci s o) = true.
+Proof.
+  intros cfg s o Hti Hsp. unfold c05_monitor_core_ok. rewrite fstep_of_pre, fstep_of_result, fstep_of_post.
+  rewrite (fp_core_of s Hti Hsp). cbn [andb].
+  pose proof (ti_vstep cci s o Hti) as Hti'.
+  pose proof (sp_vstep_live cci s o Hsp) as Hsp'.
+  destruct (vstep_out cci s o) as [|r pk w a|r|r|r] eqn:Eo; cbn [fresult_of poll_finished] in *.
+  - apply fp_core_of; auto.
+  - destruct r; try reflexivity. apply fp_core_of; auto.
+  - apply fp_core_of; auto.
+  - apply fp_core_of; auto.
+  - destruct r; apply fp_core_of; auto.
+Qed.
+
+Theorem c05_monitor_core_ok_trace : forall cfg mk c (s0 : vsock) ops,
+  0 <= vc_isn c < M16 -> vsock_new cci mk c = Some s0 ->
+  forallb (c05_monitor_core_ok cfg) (ftrace cci s0 ops) = true.
+Proof.
+  intros cfg mk c s0 ops Hisn H0.
+  apply (ftrace_forallb_live cci (fun s => ti s /\ C05_Segs.sp s)).
+  - intros s o (H1 & H2). apply c05_monitor_core_ok_step; assumption.
+  - intros s o (H1 & H2) Hl. split; [apply ti_vstep; exact H1|apply sp_vstep_live; assumption].
+  - split; [eapply ti_vsock_new; exact H0|eapply sp_vsock_new; [exact Hisn|exact H0]].
+Qed.
+
 End WithCC.
 
 (* ================================================================== c05_rto_exit_ok is FALSE of the model
